@@ -151,4 +151,4 @@ def run(ctx):
         return
     if not lean_ok:
         ctx.escalated = True
-    step_sim(ctx, tier_n(ctx, 34, 500))
+    step_sim(ctx, tier_n(ctx, 36, 500))
